@@ -29,7 +29,7 @@ func init() {
 		Run: runC06, Workers: 16, GOMAXPROCS: 4,
 		QuickTimeout: 8 * time.Minute, ThoroughTimeout: 40 * time.Minute,
 		QuickFloor: 200, ThoroughFloor: 4000,
-		RequiredCounters: []string{"calls_compared", "keyset_comparisons", "rerequest_during_pending_removal", "late_expiry_checks", "double_releases", "sync_add_and_remove", "gated_removal_timer_templates", "concurrent_ref_cases", "nil_routine_constructions"},
+		RequiredCounters: []string{"calls_compared", "keyset_comparisons", "rerequest_during_pending_removal", "late_expiry_checks", "double_releases", "sync_add_and_remove", "gated_removal_timer_templates", "concurrent_ref_cases", "concurrent_setkey_cases", "nil_routine_constructions"},
 		Rule: "each case is a sequential history of 15-60 calls (SetKey, RemoveKey, SyncKeys with duplicates, GetKey, AddKeyRef, Release incl. double release, KeyedRefCount.RemoveKey) on a Keyed or KeyedRefCount over 1-6 keys, with and without a 30 ms release delay, routines that run until cancelled / fail at once / succeed at once, with and without a context; " +
 			"a reference model (key -> construction id, pending removal, failed) is stepped beside it and every return value and the key set after every call are compared; gated templates hold the removal-timer callback before the mutex while the key is re-requested; concurrent cases race the last Release with AddKeyRef and judge at quiescence; " +
 			"non-trivial = the history contains a re-request during a pending removal, a double release, or a SyncKeys that both adds and removes; distinct = distinct call/result sequences",
@@ -78,7 +78,96 @@ func runC06(w *mon.Worker) {
 	for i := 0; i < w.Share(w.Scale(1600, 40000)); i++ {
 		w.Case("concurrent-refs", nil, c06ConcurrentRefCase)
 	}
+	for i := 0; i < w.Share(w.Scale(1600, 40000)); i++ {
+		w.Case("concurrent-setkey", nil, c06ConcurrentSetKeyCase)
+	}
 	mon.ClearProb()
+}
+
+// c06ConcurrentSetKeyCase: several goroutines request the same absent key at once while the constructor is slow.
+// Exactly one call reports the key as new, the constructor runs once, everybody sees the same data, and after
+// RemoveKey nothing of that key keeps running.
+func c06ConcurrentSetKeyCase(c *mon.Case) {
+	r := c.Rng
+	var ctors, live atomic.Int64
+	slow := r.IntN(3)
+	sleepFor := time.Duration(10+r.IntN(40)) * time.Microsecond
+	ctor := func(key string) (keyed.Routine, int) {
+		id := int(ctors.Add(1))
+		switch slow {
+		case 1:
+			for i := 0; i < 5; i++ {
+				runtime.Gosched()
+			}
+		case 2:
+			time.Sleep(sleepFor)
+		}
+		return func(ctx context.Context) error {
+			live.Add(1)
+			<-ctx.Done()
+			live.Add(-1)
+			return context.Canceled
+		}, id
+	}
+	k := keyed.NewKeyed(ctor)
+	ctx, cancel := context.WithCancel(context.Background())
+	defer cancel()
+	k.SetContext(ctx, false)
+	n := 2 + r.IntN(5)
+	type res struct {
+		data    int
+		existed bool
+		sync    bool
+	}
+	out := make([]res, n)
+	start := make(chan struct{})
+	for i := 0; i < n; i++ {
+		i := i
+		useSync := r.IntN(4) == 0
+		c.Go(fmt.Sprint("s", i), func() {
+			<-start
+			if useSync {
+				added, _ := k.SyncKeys([]string{"a"}, true)
+				d, _ := k.GetKey("a")
+				out[i] = res{data: d, existed: len(added) == 0, sync: true}
+				return
+			}
+			d, ex := k.SetKey("a", true)
+			out[i] = res{data: d, existed: ex}
+		})
+	}
+	close(start)
+	if !c.WaitActors(10 * time.Second) {
+		c.Inconclusive("callers did not finish")
+		return
+	}
+	c.Count("concurrent_setkey_cases", 1)
+	c.NonTrivial()
+	c.Mix(uint64(n)<<2 | uint64(slow))
+	fresh := 0
+	for _, o := range out {
+		if !o.existed {
+			fresh++
+		}
+	}
+	cur, _ := k.GetKey("a")
+	if fresh != 1 || ctors.Load() != 1 {
+		c.Violate("model", "setkey-existed", "%d concurrent SetKey/SyncKeys calls for the same absent key: %d of them reported the key as new and the constructor ran %d times (want 1 and 1); results %+v", n, fresh, ctors.Load(), out)
+	}
+	for _, o := range out {
+		if o.data != cur {
+			c.Violate("model", "data-mismatch", "a concurrent SetKey returned data %d, the key carries %d; results %+v", o.data, cur, out)
+			break
+		}
+	}
+	k.RemoveKey("a")
+	if !mon.Quiesce(5 * time.Second) {
+		c.Inconclusive("no quiescence")
+		return
+	}
+	if l := live.Load(); l != 0 {
+		c.Violate("model", "routine-of-removed-key-running", "after RemoveKey(a) %d routine instance(s) constructed for the key are still running at quiescence", l)
+	}
 }
 
 type c06World struct {
@@ -933,6 +1022,9 @@ func runC07(w *mon.Worker) {
 	for i := 0; i < w.Share(w.Scale(320, 20000)); i++ {
 		w.Case("refcount-lifecycle", nil, c07RefCountLifecycleCase)
 	}
+	for i := 0; i < w.Share(w.Scale(64, 2000)); i++ {
+		w.Case("constructors", nil, c07ConstructorsCase)
+	}
 }
 
 func c07BurstCase(c *mon.Case, retry bool) {
@@ -1336,13 +1428,21 @@ func c07DelayedRemovalCase(c *mon.Case) {
 // whatever non-restarting calls land inside the backoff interval.
 func c07RetryTemplateCase(c *mon.Case) {
 	r := c.Rng
-	variant := r.IntN(5)
+	variant := r.IntN(6)
 	errKind := r.IntN(3) // 0 plain error, 1 context.Canceled value, 2 wrapped context.Canceled (the routine's own context stays live)
+	if variant == 5 {
+		errKind = 0
+	}
 	failNow := make(chan struct{})
 	behave := func(n int, key string, ctor int) (bool, int, error) {
 		if n == 0 {
 			if variant == 3 {
 				<-failNow
+			}
+			if variant == 5 {
+				// runs until its context is cancelled and the driver lets it go, then fails with an error of its own
+				<-failNow
+				return true, 0, fmt.Errorf("inst-error-0")
 			}
 			switch errKind {
 			case 1:
@@ -1383,6 +1483,17 @@ func c07RetryTemplateCase(c *mon.Case) {
 			return
 		}
 	} else {
+		if variant == 5 {
+			// the owner cancels the root context without telling the container; a non-restarting call notices it;
+			// only then does the routine return its error
+			if !mon.Quiesce(5 * time.Second) {
+				c.Inconclusive("no quiescence before the root cancel")
+				return
+			}
+			cx.cancel()
+			w.k.SyncKeys([]string{"a"}, false)
+			close(failNow)
+		}
 		if !mon.Quiesce(5 * time.Second) {
 			c.Inconclusive("no quiescence after the failure")
 			return
@@ -1402,6 +1513,10 @@ func c07RetryTemplateCase(c *mon.Case) {
 		case 4:
 			// a context change that does not restart errored routines must leave the retry in place
 			what = "SetContext(other context, restart=false)"
+			ctx2, _ := cx.fresh()
+			w.k.SetContext(ctx2, false)
+		case 5:
+			what = "root context cancelled by its owner, SyncKeys([a], restart=false), then the failure, then SetContext(new context, restart=false)"
 			ctx2, _ := cx.fresh()
 			w.k.SetContext(ctx2, false)
 		default:
@@ -1626,4 +1741,93 @@ func c07RefCountLifecycleCase(c *mon.Case) {
 			break
 		}
 	}
+}
+
+// c07ConstructorsCase: every documented constructor honours its options (retry + exit callback): a routine that fails
+// once and then succeeds is run exactly twice while its key stays in the set, and the exit callback sees both exits.
+func c07ConstructorsCase(c *mon.Case) {
+	r := c.Rng
+	kind := r.IntN(4)
+	retryKind := r.IntN(2)
+	var mu sync.Mutex
+	var cbs []error
+	var entries atomic.Int64
+	errFirst := fmt.Errorf("inst-error-0")
+	ctor := func(key string) (keyed.Routine, int) {
+		return func(ctx context.Context) error {
+			n := entries.Add(1)
+			c.Rec("inst", fmt.Sprint("enter ", n), nil)
+			if n == 1 {
+				return errFirst
+			}
+			return nil
+		}, 1
+	}
+	opts := []keyed.Option[string, int]{keyed.WithExitCb(func(key string, _ keyed.Routine, data int, err error) {
+		mu.Lock()
+		cbs = append(cbs, err)
+		mu.Unlock()
+	})}
+	if retryKind == 0 {
+		opts = append(opts, keyed.WithBackoff[string, int](func(string) cbackoff.BackOff { return cbackoff.NewConstantBackOff(rtBackoff) }))
+	} else {
+		opts = append(opts, keyed.WithRetry[string, int](&ubackoff.Backoff{BackoffKind: ubackoff.BackoffKind_BackoffKind_CONSTANT, Constant: &ubackoff.Constant{Interval: 1}}))
+	}
+	if r.IntN(2) == 0 {
+		opts[0], opts[1] = opts[1], opts[0]
+	}
+	ctx, cancel := context.WithCancel(context.Background())
+	defer cancel()
+	names := []string{"NewKeyed", "NewKeyedWithLogger", "NewKeyedRefCount", "NewKeyedRefCountWithLogger"}
+	var clear func()
+	switch kind {
+	case 0, 1:
+		var k *keyed.Keyed[string, int]
+		if kind == 0 {
+			k = keyed.NewKeyed(ctor, opts...)
+		} else {
+			k = keyed.NewKeyedWithLogger(ctor, discardLogger(), opts...)
+		}
+		k.SetContext(ctx, false)
+		k.SetKey("a", true)
+		clear = k.ClearContext
+	default:
+		var k *keyed.KeyedRefCount[string, int]
+		if kind == 2 {
+			k = keyed.NewKeyedRefCount(ctor, opts...)
+		} else {
+			k = keyed.NewKeyedRefCountWithLogger(ctor, discardLogger(), opts...)
+		}
+		k.SetContext(ctx, false)
+		ref, _, _ := k.AddKeyRef("a")
+		defer ref.Release()
+		clear = k.ClearContext
+	}
+	c.Count("constructor_templates", 1)
+	c.NonTrivial()
+	c.Mix(uint64(kind)<<1 | uint64(retryKind))
+	prev := int64(-1)
+	for i := 0; i < 20; i++ {
+		if !mon.SettleTimers(rtBackoff, 30, 15*time.Millisecond, 10*time.Second) {
+			c.Inconclusive("no quiescence")
+			return
+		}
+		if n := entries.Load(); n == prev {
+			break
+		} else {
+			prev = n
+		}
+	}
+	mu.Lock()
+	g := append([]error(nil), cbs...)
+	mu.Unlock()
+	if n := entries.Load(); n != 2 {
+		sig := "keyed-failed-routine-not-retried"
+		if n > 2 {
+			sig = "keyed-rerun-without-cause"
+		}
+		c.Violate("retry", sig, "%s with retry configured (kind %d): the routine of key a fails once and then succeeds, so it must run exactly twice; it ran %d times", names[kind], retryKind, n)
+	}
+	_ = g // what the exit callback saw is recorded, not judged: C07 does not speak about exit callbacks
+	clear()
 }
